@@ -3,7 +3,7 @@ const FILEPATH = '.+?';
 const LINE = '\\d+';
 const COL = '\\d+';
 const MESSAGE = '.+?';
-const KIND = '.+?';
+const KIND = '[^\\[\\]]+'; // Rule names never contain brackets. This keeps brackets in messages from being parsed as kind
 
 let regexp = '^E?(F)E*:E*(L)E*:E*(C)E*: E*(M)E* \\[(K)\\]$';
 regexp = regexp.replaceAll('E', ESCAPE);
